@@ -44,6 +44,7 @@ inductive Err where
   | cmp            -- E0277 / E0369: comparison trait missing (PartialEq / Eq / PartialOrd / Ord)
   | e0423          -- expected function, found type
   | e0530          -- parameter shadows tuple struct
+  | e0530static    -- E0530: function parameters cannot shadow statics
   | e0588          -- packed type contains an aligned type
   | e0793          -- reference to packed field
   | emptyUnion     -- unions cannot have zero fields
@@ -72,7 +73,7 @@ inductive Finding where
   | derive_ord_without_eq | opaque_array_no_partialord | newtype_alias_constant | param_shadows_newtype
   | packed_contains_aligned | impl_on_packed_field_ref | empty_union | layout_assertion_fails | struct_layout_panic
   | packed_no_copy_debug | union_field_wrapper_unsafe | union_bool_bitfield_cast | scoped_keyword_name | cnaming_scoped_name
-  | derive_member_trait_missing | moduleconsts_enum_alias | union_bitfield_manually_drop | flexarray_dst_unused_param | tag_typedef_collision | cxx_operator_invalid_ident | modules_without_paths
+  | derive_member_trait_missing | moduleconsts_enum_alias | union_bitfield_manually_drop | flexarray_dst_unused_param | tag_typedef_collision | cxx_operator_invalid_ident | modules_without_paths | param_shadows_static
   deriving DecidableEq, Repr, Inhabited
 
 def Finding.name : Finding → String
@@ -97,6 +98,7 @@ def Finding.name : Finding → String
   | .tag_typedef_collision => "tag_typedef_collision"
   | .cxx_operator_invalid_ident => "cxx_operator_invalid_ident"
   | .modules_without_paths => "modules_without_paths"
+  | .param_shadows_static => "param_shadows_static"
 
 /-- inputs on which the derive analyses are known to disagree with what rustc needs (C08's subject) -/
 def deriveFragile (o : Opts) (f : Facts) : Bool :=
@@ -113,6 +115,7 @@ def classify (o : Opts) (f : Facts) : Err → Option Finding
   | .e0223 => if o.moduleConsts then some .moduleconsts_enum_alias else none
   | .e0432 =>
     if o.moduleConsts then some .moduleconsts_enum_alias
+    else if o.modulesUnqualified && f.cppScope then some .modules_without_paths
     else if f.cppScope && o.cNaming then some .cnaming_scoped_name else none
   | .e0308 => if f.hasUnion && f.bitfield && o.manuallyDrop then some .union_bitfield_manually_drop else none
   | .e0392 => if o.flexDst && f.flexArray then some .flexarray_dst_unused_param else none
@@ -120,6 +123,7 @@ def classify (o : Opts) (f : Facts) : Err → Option Finding
   | .identPanic => if o.representOps && f.cppScope then some .cxx_operator_invalid_ident else none
   | .e0423 => if o.newtypeAlias then some .newtype_alias_constant else none
   | .e0530 => if o.newtypeAlias || o.newtypeEnum then some .param_shadows_newtype else none
+  | .e0530static => if f.cppScope then some .param_shadows_static else none
   | .e0588 => if f.packed && (f.aligned || f.blob) then some .packed_contains_aligned else none
   | .e0793 => if f.packed && (o.implDebug || o.implPartialeq) then some .impl_on_packed_field_ref else none
   | .emptyUnion => if f.emptyUnion then some .empty_union else none
